@@ -134,6 +134,7 @@ partial def main (args : List String) : IO UInt32 := do
     let mut lastFe := 0
     while execsLeft > 0 ∧ stop.isNone ∧ diverged.isNone do
       let sp0 := vm.sp
+      let wasInit := vm.initialized
       match pending with
       | (ea, ps) :: rest => md := { md0 with entryAddr := ea, params := ps }; pending := rest
       | [] => pure ()
@@ -168,6 +169,7 @@ partial def main (args : List String) : IO UInt32 := do
             | .error _ => "?"
           else "-"
         vm := haltEpilogue vm
+        vm := failEpilogue wasInit sp0 vm
         results := results ++ [s!"exec ret={if vm.running == 0 then 0 else 1} sp_before={sp0} sp_after={vm.sp} running={vm.running} exc={vm.exception} result={r}"]
         if vm.running != 0 ∧ !callsMode then execsLeft := 0 else execsLeft := execsLeft - 1
     IO.println s!"steps {steps}"
